@@ -5,6 +5,7 @@ R2 rewrite-order interference: no earlier-applied replacement pattern is a prope
    with a different replacement; no spelled day contains a suffix the ordinal strip removes
 R3 plumbing: year/month/day reach the converter by keyword, the clock time is carried over unchanged, the Hijri
    wrapper forwards the same keywords, CalendarBase.get_date turns ValueError into None
+R4 the day-token bound month_length(year, month) is evaluated on a (year, month) pair of one origin (reaching definitions)
 """
 import ast
 
@@ -26,6 +27,59 @@ EXPLANATION = (
 )
 JP = "dateparser.calendars.jalali_parser:jalali_parser"
 NG = "dateparser.calendars:non_gregorian_parser"
+
+
+def _datetime_fields(f, params_name):
+    """{field: source text} of the datetime(...) call returned by f; `**X` with X = <params>.copy() / dict(<params>)
+    expands to <params>[field] for every field, overridden by X.update(dict(k=v)) / X.update(k=v) / X[k] = v"""
+    POS = ("year", "month", "day", "hour", "minute", "second", "microsecond", "tzinfo")
+    rets = [n for n in iter_own_nodes(f.node) if isinstance(n, ast.Return) and isinstance(n.value, ast.Call)
+            and ast.unparse(n.value.func) in ("datetime", "datetime.datetime")]
+    if len(rets) != 1:
+        return None
+    call = rets[0].value
+    out = {}
+    for i, a in enumerate(call.args):
+        if isinstance(a, ast.Starred) or i >= len(POS):
+            return None
+        out[POS[i]] = ast.unparse(a)
+    for kw in call.keywords:
+        if kw.arg is not None:
+            out[kw.arg] = ast.unparse(kw.value)
+            continue
+        if not isinstance(kw.value, ast.Name):
+            return None
+        x = kw.value.id
+        base = None
+        over = {}
+        for n in iter_own_nodes(f.node):
+            if isinstance(n, ast.Assign) and len(n.targets) == 1:
+                t = n.targets[0]
+                if isinstance(t, ast.Name) and t.id == x:
+                    v = ast.unparse(n.value)
+                    if v in ("%s.copy()" % params_name, "dict(%s)" % params_name, "{**%s}" % params_name):
+                        base = params_name
+                    else:
+                        return None
+                elif isinstance(t, ast.Subscript) and ast.unparse(t.value) == x and isinstance(t.slice, ast.Constant):
+                    over[t.slice.value] = ast.unparse(n.value)
+            elif isinstance(n, ast.Call) and ast.unparse(n.func) == x + ".update":
+                if n.args and isinstance(n.args[0], ast.Call) and ast.unparse(n.args[0].func) == "dict" and not n.args[0].args:
+                    over.update({k.arg: ast.unparse(k.value) for k in n.args[0].keywords})
+                elif n.args and isinstance(n.args[0], ast.Dict) and all(isinstance(k, ast.Constant) for k in n.args[0].keys):
+                    over.update({k.value: ast.unparse(v) for k, v in zip(n.args[0].keys, n.args[0].values)})
+                elif not n.args:
+                    over.update({k.arg: ast.unparse(k.value) for k in n.keywords})
+                else:
+                    return None
+        if x == params_name:
+            base = params_name
+        if base is None:
+            return None
+        for fld in POS[:7]:
+            out.setdefault(fld, "%s[%r]" % (base, fld))
+        out.update(over)
+    return out
 
 
 def _attr_literal(cls, name, rule):
@@ -261,16 +315,24 @@ def r3(ctx, chk):
     ok = all(src.get(kw.get(part)) == part for part in ("year", "month", "day"))
     chk.ob(rule, "the converter's year/month/day come from the parsed params of the same name", ok, "kwargs %s, locals %s" % (kw, src),
            key={"function": f.key, "construct": "params plumbing"}, file=f.file, function=f.qual, line=f.node.lineno)
-    t = " ".join(ast.unparse(f.node).split())
     import re as _re
-    m_ = _re.search(r"(\w+), (\w+), (\w+) = self\.calendar_converter\.to_gregorian\(", t)
-    ok_unpack = bool(m_)
-    m2 = _re.search(r"(\w+) = params\.copy\(\) \1\.update\(dict\(year=(\w+), month=(\w+), day=(\w+)\)\) return datetime\(\*\*\1\)", t)
-    ok = bool(m2) and bool(m_) and (m2.group(2), m2.group(3), m2.group(4)) == (m_.group(1), m_.group(2), m_.group(3))
-    chk.ob(rule, "the Gregorian result keeps hour/minute/second/microsecond of the parsed params", bool(m2), "",
-           key={"function": f.key, "construct": "time carried over"}, file=f.file, function=f.qual, line=f.node.lineno)
-    chk.ob(rule, "the converter's result is unpacked as (year, month, day) and stored under the same names", ok and ok_unpack, "",
+    # the Gregorian datetime: year/month/day are the converter's results (in that order), every clock field is the parsed one
+    unpack = [n for n in iter_own_nodes(f.node) if isinstance(n, ast.Assign) and conv and n.value is conv[0] and isinstance(n.targets[0], ast.Tuple)]
+    greg = [ast.unparse(e) for e in unpack[0].targets[0].elts] if unpack and len(unpack[0].targets[0].elts) == 3 else None
+    chk.ob(rule, "the converter's result is unpacked into three names (year, month, day order)", greg is not None, "",
            key={"function": f.key, "construct": "unpack order"}, file=f.file, function=f.qual, line=f.node.lineno)
+    kwname = f.node.args.kwarg.arg if f.node.args.kwarg else None
+    fields = _datetime_fields(f, kwname)
+    if fields is None:
+        raise AnalysisError(rule, "_get_datetime_obj: cannot find the datetime(...) it returns")
+    for i_, part in enumerate(("year", "month", "day")):
+        chk.ob(rule, "the returned datetime takes its %s from the converter's result" % part, greg is not None and fields.get(part) == greg[i_],
+               "datetime(%s=%s)" % (part, fields.get(part)), key={"function": f.key, "construct": "gregorian " + part},
+               file=f.file, function=f.qual, line=f.node.lineno)
+    for part in ("hour", "minute", "second", "microsecond"):
+        chk.ob(rule, "the returned datetime keeps the parsed %s" % part, fields.get(part) == "%s[%r]" % (kwname, part),
+               "the %s of the clock time in the string is %s" % (part, "dropped" if part not in fields else "taken from " + str(fields.get(part))),
+               key={"function": f.key, "construct": "time carried over: " + part}, file=f.file, function=f.qual, line=f.node.lineno)
     h = ix.cls("dateparser.calendars.hijri_parser:hijri")
     tg = h.methods.get("to_gregorian")
     t = " ".join(ast.unparse(tg.node).split()) if tg else ""
@@ -290,6 +352,58 @@ def r3(ctx, chk):
     ok = _re.search(r"(\w+) = list\(self\._months\.keys\(\)\)\.index\(token\) \+ 1", t) is not None and "directive == '%B' and self._months and (token in self._months)" in t
     chk.ob(rule, "a month name maps to its position in the month table + 1", ok, "", key={"function": g.key, "construct": "month index"},
            file=g.file, function=g.qual, line=g.node.lineno)
+    # R4: the day-token bound. month_length(year, month) must be evaluated on a consistent pair: both components the class
+    # defaults (the loose "no longer than the longest month" bound used today) or both the parsed ones. A parsed month
+    # combined with the default year rejects day 30 of months that are longer in the given year (leap-year Esfand 30).
+    rule4 = "C15.R4"
+    from ..core.cfg import CFG
+    cg_ = CFG(g.node)
+    bounds = [n for n in iter_own_nodes(g.node) if isinstance(n, ast.Call) and ast.unparse(n.func).endswith("calendar_converter.month_length")]
+    chk.floor(rule4, len(bounds), 1, "day-token bounds in _get_date_obj")
+
+    def provenance(name, at_node, nid=None, depth=0):
+        if nid is None:
+            nid = cg_.node_of_expr(g.node, at_node)
+        rd = cg_.reaching_defs(name)
+        out = set()
+        for d in rd.get(nid, ()):
+            st = cg_.nodes[d].stmt if d != cg_.entry.id else None
+            if st is None:
+                out.add("parameter")
+                continue
+            # value assigned to `name` by this statement
+            val = None
+            if isinstance(st, ast.Assign):
+                tg = st.targets[0]
+                if isinstance(tg, ast.Tuple) and isinstance(st.value, ast.Tuple):
+                    for t_, v_ in zip(tg.elts, st.value.elts):
+                        if isinstance(t_, ast.Name) and t_.id == name:
+                            val = v_
+                elif isinstance(tg, ast.Name):
+                    val = st.value
+            if isinstance(val, ast.Name) and depth < 4:      # a copy: follow it
+                out |= provenance(val.id, None, d, depth + 1)
+                continue
+            txt = ast.unparse(val) if val is not None else "?"
+            out.add("default" if _re.fullmatch(r"self\.default_\w+", txt) else "parsed" if _re.fullmatch(r"self\.(year|month|day)", txt)
+                    else "token" if "token" in txt else "other:" + txt[:30])
+        return out
+    for b in bounds:
+        if len(b.args) != 2 or not all(isinstance(a, ast.Name) for a in b.args):
+            chk.ob(rule4, "the day bound is month_length(<year name>, <month name>)", False, ast.unparse(b)[:80],
+                   key={"function": g.key, "construct": "day bound shape"}, file=g.file, function=g.qual, line=b.lineno)
+            continue
+        py, pm = provenance(b.args[0].id, b), provenance(b.args[1].id, b)
+        chk.ob(rule4, "the day bound month_length(year, month) uses a year and a month of the same origin", py == pm and len(py) == 1,
+               "year comes from %s, month from %s: a month parsed from the string is measured in another year (a day that exists in the "
+               "given year is rejected)" % (sorted(py), sorted(pm)),
+               key={"function": g.key, "construct": "day bound provenance"}, file=g.file, function=g.qual, line=b.lineno, text=ast.unparse(b)[:100])
+    for cls_ in (J, H):
+        dm = cls_.attrs.get("default_month")
+        ok = isinstance(dm, ast.Constant) and dm.value == 1
+        chk.ob(rule4, "%s.default_month is the first month (the longest one in both calendars: 31 / 30 days)" % cls_.name, ok,
+               "default_month = %s" % (ast.unparse(dm) if dm is not None else None),
+               key={"function": cls_.key, "construct": "default month is a longest month"}, file=cls_.module.rel, function=cls_.name, line=None)
     # parse applies to_latin first and then the generic parser
     p = ix.func(NG + ".parse")
     t = " ".join(ast.unparse(p.node).split())
